@@ -116,6 +116,10 @@ Definition move_to_front {A} (i : nat) (l : list A) : list A :=
 Definition orel {A} (R : A -> A -> Prop) (a b : option A) : Prop :=
   match a, b with Some x, Some y => R x y | None, None => True | _, _ => False end.
 
+Definition memb (x : str) (l : list str) : bool := existsb (str_eqb x) l.
+Fixpoint nodupb (l : list str) : bool :=
+  match l with [] => true | x :: r => negb (memb x r) && nodupb r end.
+
 Definition is_nil {A} (l : list A) : bool := match l with [] => true | _ => false end.
 Definition is_none {A} (o : option A) : bool := match o with None => true | Some _ => false end.
 
@@ -292,6 +296,8 @@ Definition paths_of (nm : names) (t : tree) : list path :=
 
 (** ** Dictionary helpers *)
 Definition d_mem (k : str) (d : dict) : bool := negb (is_none (d_get S k d)).
+(** [Dictionary::remove]: removing an absent key leaves the dictionary as it is *)
+Definition remove_key (k : str) (d : dict) : dict := if d_mem k d then d_del S k d else d.
 Definition wf_dict (d : dict) : Prop :=
   forall k v, d_get S k d = Some v -> wf_key S k /\ wf_pv S v.
 
@@ -388,7 +394,8 @@ Definition save (o : opts) (f : font) : result tree serr :=
 Inductive lerr :=
 | LMissingMetaInfo | LParse (file : N) | LInvalidInfo | LInvalidGroups
 | LObjectLibsMustBeDict | LGuidelineLibMustBeDict | LMissingLayerContents | LMissingDefaultLayer
-| LMissingContents | LGlyph | LLegacy.
+| LMissingContents | LGlyph | LLegacy
+| LDuplicateLayerName | LDuplicateLayerDirectory | LReservedLayerName | LDuplicateGlyphFile.
 
 (** [FontInfo::load_object_libs]: the key is removed from the lib; every guideline with an
     identifier takes (and removes) the entry of that name, which must be a dictionary; entries
@@ -470,6 +477,8 @@ Definition load_layer (t : tree) (e : str * str) : result lay lerr :=
           match dec (P_contents S) cc with
           | None => Err (LParse 7)
           | Some cl =>
+              (* every glif file name may be used once (seen set, in glyph-name order) *)
+              if negb (nodupb (map snd cl)) then Err LDuplicateGlyphFile else
               bind (mapM (load_glyph d) cl) (fun gl =>
               bind (load_opt (P_li S) (ld_info d) 8) (fun li =>
               Ok {| l_name := fst e; l_dir := snd e;
@@ -488,16 +497,30 @@ Definition is_default_dir (l : lay) : bool := str_eqb (l_dir l) GLYPHS.
 (** [LayerContents::load]: without layercontents.plist (legal before format 3) one layer
     [public.default] in [glyphs]; the default layer is the first one whose directory is
     [glyphs] and is moved to the front *)
+(** the pre-filter loop of [LayerContents::load], per entry in file order: name already seen,
+    directory already seen, [public.default] in a directory other than [glyphs].  (Directories are
+    single path components in this model; the [plain_name] test is C09's.) *)
+Fixpoint lc_precheck (seen_n seen_d : list str) (lc : list (str * str)) : option lerr :=
+  match lc with
+  | [] => None
+  | e :: r =>
+      if memb (fst e) seen_n then Some LDuplicateLayerName
+      else if memb (snd e) seen_d then Some LDuplicateLayerDirectory
+      else if str_eqb (fst e) DEFAULT_LAYER_NAME && negb (str_eqb (snd e) GLYPHS) then Some LReservedLayerName
+      else lc_precheck (fst e :: seen_n) (snd e :: seen_d) r
+  end.
+
 Definition load_layers (t : tree) (v : N) : result (list lay) lerr :=
   bind (match t_lcontents t with
         | None => if v =? 3 then Err LMissingLayerContents else Ok [(DEFAULT_LAYER_NAME, GLYPHS)]
         | Some c => match dec (P_lc S) c with Some l => Ok l | None => Err (LParse 6) end
         end) (fun lc =>
+  match lc_precheck [] [] lc with Some e => Err e | None =>
   bind (mapM (load_layer t) lc) (fun ls =>
   match find_idx is_default_dir ls with
   | None => Err LMissingDefaultLayer
   | Some i => Ok (move_to_front i ls)
-  end)).
+  end) end).
 
 Definition all_glyph_names (ls : list lay) : list str :=
   flat_map (fun l => map (fun e => fst (fst e)) (l_glyphs l)) ls.
@@ -517,7 +540,9 @@ Definition load (t : tree) : result font lerr :=
   bind (match t_info t with
         | None => Ok (info_dflt, lib0)
         | Some c => load_fontinfo v c lib0
-        end) (fun il =>
+        end) (fun il0 =>
+  (* public.objectLibs is removed from the lib whether or not a font info consumed it *)
+  let il := (fst il0, remove_key OBJ (snd il0)) in
   bind (load_opt (P_groups S) (t_groups t) 3) (fun g0 =>
   bind (match g0 with
         | Some g => if groups_ok S g then Ok g0 else Err LInvalidGroups
@@ -576,7 +601,9 @@ Definition layers_ok (ls : list lay) : Prop :=
   match ls with
   | [] => False
   | d :: r => l_dir d = GLYPHS /\ Forall (fun l => l_dir l <> GLYPHS) r
-  end /\ NoDup (map l_dir ls) /\ Forall layer_ok ls /\ wf (P_lc S) (lc_of ls).
+  end /\ NoDup (map l_dir ls) /\ Forall layer_ok ls /\ wf (P_lc S) (lc_of ls) /\
+  (* layer names are unique and only the default layer may be called public.default *)
+  NoDup (map l_name ls) /\ Forall (fun l => l_name l = DEFAULT_LAYER_NAME -> l_dir l = GLYPHS) ls.
 
 Definition font_valid (f : font) : Prop :=
   m_version (f_meta f) = 3 /\
@@ -740,11 +767,11 @@ Definition spec_read (t : tree) : option font :=
   obind (spec_read_opt (P_info S) (t_info t) (irest_dflt S, None)) (fun si =>
   obind (match d_get S SPEC_OBJ lib0 with
          | None => Some (option_map (map bare) (snd si), lib0)
-         | Some v => obind (as_dict S v) (fun ol =>
-                     match snd si with
-                     | None => Some (None, d_del S SPEC_OBJ lib0)
-                     | Some gs => option_map (fun gs' => (Some gs', d_del S SPEC_OBJ lib0)) (spec_attach gs ol)
-                     end)
+         | Some v => match snd si with
+                     | None => Some (None, d_del S SPEC_OBJ lib0)     (* nobody to own the entries *)
+                     | Some gs => obind (as_dict S v) (fun ol =>
+                                  option_map (fun gs' => (Some gs', d_del S SPEC_OBJ lib0)) (spec_attach gs ol))
+                     end
          end) (fun gl =>
   obind (spec_read_opt (P_groups S) (t_groups t) (groups_dflt S)) (fun g =>
   obind (spec_read_opt (P_kerning S) (t_kerning t) (kerning_dflt S)) (fun k =>
@@ -829,16 +856,5 @@ Record sig_closed : Prop := {
                 forall id, snd g = Some id -> wf_key S id;
   info_ok_nodup : forall i : info, info_ok S i = true -> NoDup (some_ids (map g_id (guides_of i)));
   wf_set_name : forall n g, wf (P_glif S) g -> wf (P_glif S) (set_name S n g) }.
-
-(** on disk: layercontents.plist names every directory once, every contents.plist names every
-    glif file once *)
-Definition disk_wf (t : tree) : Prop :=
-  (forall c lc, t_lcontents t = Some c -> dec (P_lc S) c = Some lc -> NoDup (map snd lc)) /\
-  (forall d ld c cl, In (d, ld) (t_dirs t) -> ld_contents ld = Some c -> dec (P_contents S) c = Some cl ->
-                     NoDup (map snd cl)).
-
-(** known class of C04: [public.objectLibs] in lib.plist and no fontinfo.plist to consume it *)
-Definition orphan_object_libs (t : tree) : Prop :=
-  t_info t = None /\ exists c d, t_lib t = Some c /\ dec (P_lib S) c = Some d /\ d_get S OBJ d <> None.
 
 End Model.
